@@ -52,6 +52,13 @@ def check_bed(spec, ctx):
         ctx.label("touching_blocks")
     name_sel = spec["name"]
     kw = dict(score=spec["score"], rgb=RGB(*spec["rgb"]), name=name_sel, chromosome_relative_coordinates=(mode == "chrom"))
+    if spec.get("other_mode_first"):
+        # the same object was exported in the other coordinate mode just before (the two records share nothing but the object)
+        try:
+            obj.to_bed12(**dict(kw, chromosome_relative_coordinates=not kw["chromosome_relative_coordinates"]))
+            ctx.label("other_mode_exported_first")
+        except NoSuchAncestorException:
+            pass
     try:
         bed = obj.to_bed12(**kw)
     except NoSuchAncestorException:
@@ -141,7 +148,7 @@ def strat_bed(draw, tier="quick"):
     cs = draw(st.sampled_from([0, lo, max(0, lo - 1)] + list(range(0, lo + 1))))
     ce = draw(st.sampled_from([hi, n] + list(range(hi, n + 1))))
     return {"kind": kind, "obj": obj, "genome": g, "chunk": [cs, ce], "parent": draw(st.sampled_from(["chunk", "chunk", "chrom", "none"])),
-            "chunk_strand": draw(st.sampled_from(["+", "+", "-"])), "mode": draw(st.sampled_from(["chrom", "chunk"])), "name": draw(st.sampled_from(names)), "score": draw(st.integers(0, 1000)),
+            "other_mode_first": draw(st.booleans()), "chunk_strand": draw(st.sampled_from(["+", "+", "-"])), "mode": draw(st.sampled_from(["chrom", "chunk"])), "name": draw(st.sampled_from(names)), "score": draw(st.integers(0, 1000)),
             "rgb": [draw(st.integers(0, 255)) for _ in range(3)]}
 
 
